@@ -87,6 +87,7 @@ func opTxSort(_ *HState, a Event) Event {
 }
 
 func runC18(c *Ctx) {
+	c.Conc = true // stateless calls are also replayed from several goroutines at once
 	r := c.Rng
 	c.Batch = 100
 	mkHash := func(k int) []byte {
